@@ -23,7 +23,8 @@
 (*                                                                                                            *)
 (* Record r: [op, nauto, gc, edge, rmask, hasgc, hasrmask, hasdepth, ref, tgt, ant, err, errkind, out, var]   *)
 (*   op = "fix" (one call) or "fix_scale2k" / "fix_scalef" / "fix_perm" (a pair of calls);                    *)
-(*   var = [kind, k, tperm, aperm, err, out]: the second run of the pair (depth rescaled / rows permuted).    *)
+(*   var = [kind, k, k16, tperm, aperm, err, out]: the second run of the pair (depth x 2^k, k16 = 16 k; depth x   *)
+(*   fnum/fden, k16 = round(16 log2 of it); rows permuted by tperm / aperm / rperm).                           *)
 EXTENDS Stats
 
 LU == 1024
@@ -139,15 +140,17 @@ DistinctCovariates(r, K) ==
 FixMed2(s) == LET t == SortSeq(s, LAMBDA a, b : a < b)
                   n == Len(t)
               IN IF n % 2 = 1 THEN 2 * t[(n + 1) \div 2] ELSE t[n \div 2] + t[n \div 2 + 1]
-LowCoverage(v, d0) == v < NullCut \/ d0 = 1
-CentreM4(rows, skipLow, nauto) ==
-    LET use == SelectSeq(rows, LAMBDA x : ~(skipLow /\ LowCoverage(x[2], x[3])))
+LowCoverageAt(v, d0, cut) == v < cut \/ d0 = 1
+LowCoverage(v, d0) == LowCoverageAt(v, d0, NullCut)
+CentreM4At(rows, skipLow, nauto, cut) ==
+    LET use == SelectSeq(rows, LAMBDA x : ~(skipLow /\ LowCoverageAt(x[2], x[3], cut)))
         sel == IF \E k \in 1..Len(use) : use[k][1] <= nauto
                THEN SelectSeq(use, LAMBDA x : x[1] <= nauto) ELSE use
         cs == SetToSortSeq({sel[k][1] : k \in 1..Len(sel)}, <)
         meds == Force([j \in 1..Len(cs) |->
                     LET on == SelectSeq(sel, LAMBDA x : x[1] = cs[j]) IN FixMed2([k \in 1..Len(on) |-> on[k][2]])])
     IN IF sel = <<>> THEN 0 ELSE FixMed2(meds)
+CentreM4(rows, skipLow, nauto) == CentreM4At(rows, skipLow, nauto, NullCut)
 
 (* ================================================================= A-layer: cnvlib/fix.py, step for step ===== *)
 (* mask_bad_bins: (log2 < MIN) | (log2 > -MIN) | (spread > MAX) | depth == 0 [if depth] | gc > hi | gc < lo [if gc] *)
@@ -162,7 +165,7 @@ ALoadErr(r, samp) == IF samp = <<>> THEN ""
                      ELSE IF MissingFrom(r.ref, samp) THEN "missing"
                      ELSE ""
 AErr(r) == IF ALoadErr(r, r.tgt) # "" THEN ALoadErr(r, r.tgt) ELSE ALoadErr(r, r.ant)
-(* load_adjust_coverages (with the sample sorted first, see UnsortedSample below):                              *)
+(* load_adjust_coverages (a copy of the sample is sorted first, see F1 below):                              *)
 (*   keep the bins whose matched reference bin is not bad -> center_all(skip_low = on-target) -> unless at most *)
 (*   half of the bins have log2 > -15: gc, edge, rmask corrections -> rows <<c, s, e, v - ref log2, d0, anti>>  *)
 ALoad(r, K) ==
@@ -181,7 +184,7 @@ CoveredEnough(r, K) ==      \* the corrections of this class are not skipped by 
         n == Len(bins)
         m4 == CentreM4([i \in 1..n |-> <<bins[i][1][1], bins[i][1][4], bins[i][1][5]>>], K = "T", r.nauto)
         sh == 0 - (m4 \div 4)
-    IN Cardinality({i \in 1..n : bins[i][1][4] + sh > NullCut}) > n \div 2
+    IN n = 0 \/ Cardinality({i \in 1..n : bins[i][1][4] + sh > NullCut}) > n \div 2
 (* do_fix: target then antitarget; combined and sorted (if any antitarget bin is left); log2 -= reference log2   *)
 (* (done in ALoad); center_all(skip_low = True).  Rows <<c, s, e, u, d0, anti>> in genomic order.                *)
 ABeforeCentre(r) == SortRows(ALoad(r, "T") \o ALoad(r, "A"))
@@ -215,14 +218,18 @@ ClassConstantOK(r, K) ==
        /\ Cardinality({rows[i][4] - core[i][2] : i \in present}) <= 1          \* one constant for the class
 
 (* "the output is centred (median of the autosomal chromosome medians is 0)" -- over the bins that have coverage *)
-(* (drop_low_coverage: the documented reading of center_all(skip_low=True)); exact when every value is on the    *)
-(* grid, otherwise |median| <= 2 * 10^-6 on the values rounded to 10^-6                                          *)
+(* (depth > 0: the documented reading of center_all(skip_low=True)); exact when every value is on the grid,      *)
+(* otherwise |median| <= 2 * 10^-6 on the values rounded to 10^-6.  The code also leaves out covered bins whose  *)
+(* log2 *before* the shift is below -15; whether an output bin was one of those cannot be told from the output   *)
+(* near the cut, so a record with a covered bin below -7 (cut + 8) is `undecided` for this clause.                *)
+NoCut == -1000000000
 CentredOK(o, nauto) ==
     IF \E j \in 1..Len(o) : o[j][7] = 1 THEN FALSE
     ELSE IF \A j \in 1..Len(o) : o[j][5] = 1
-         THEN CentreM4([j \in 1..Len(o) |-> <<o[j][1], o[j][4], o[j][8]>>], TRUE, nauto) = 0
-         ELSE LET m4 == CentreM4([j \in 1..Len(o) |-> <<o[j][1], o[j][6], o[j][8]>>], TRUE, nauto)
+         THEN CentreM4At([j \in 1..Len(o) |-> <<o[j][1], o[j][4], o[j][8]>>], TRUE, nauto, NoCut) = 0
+         ELSE LET m4 == CentreM4At([j \in 1..Len(o) |-> <<o[j][1], o[j][6], o[j][8]>>], TRUE, nauto, NoCut)
               IN m4 <= 8 /\ m4 >= -8
+CentredUndecided(o) == \E j \in 1..Len(o) : o[j][7] = 0 /\ o[j][8] = 0 /\ o[j][4] < NullCut + 8 * LU
 
 (* weights *)
 WNum(x) == <<x[11], x[12]>>
@@ -251,13 +258,16 @@ WClose(a, b) == LET dh == a[11] - b[11] IN
 (* A bin without coverage (depth 0) carries the placeholder log2 -20 whatever the depth scale, so after centring  *)
 (* its log2 moves by the scale's logarithm: when the depth is rescaled its row must still be there with the same   *)
 (* weight, but its log2 is not compared (skipNull).                                                                *)
+(* For an arbitrary (non-dyadic) factor the residuals move by ~10^-16, and the weights go through the biweight    *)
+(* midvariance, whose |u| < 1 mask is discontinuous exactly where grid data put points (|u| = 1): there the       *)
+(* weights are not compared (exactly = FALSE); the x 2^k pair compares them.                                      *)
 SameRow(a, b, exactly, skipNull) ==
     /\ KeyOf(a) = KeyOf(b)
     /\ a[7] = b[7] /\ a[8] = b[8] /\ a[10] = b[10]
     /\ (a[7] = 0 /\ ~(skipNull /\ a[8] = 1)) =>
             IF exactly THEN a[5] = 1 /\ b[5] = 1 /\ a[4] = b[4]
             ELSE a[6] - b[6] <= 2 /\ b[6] - a[6] <= 2
-    /\ a[10] = 0 => WClose(a, b)
+    /\ (a[10] = 0 /\ exactly) => WClose(a, b)
 SameOutcome(r, exactly, skipNull) ==
     /\ (r.err = "") = (r.var.err = "")
     /\ r.err = "" => /\ Len(r.out) = Len(r.var.out)
@@ -279,9 +289,10 @@ Clauses(op) == IF op \in Ops THEN BaseClauses \cup ValueClauses \cup VarClause(o
 (* for a class is judged on every other clause and counted `undecided` for this one.                                 *)
 ValuePremise(r, K) == DistinctCovariates(r, K) /\ CoveredEnough(r, K)
 Undecided(c, r) ==
-    /\ c = "log2_detrended_by_covariate_rolling_median"
-    /\ NoErr(r) /\ ~MustRefuse(r)
-    /\ \E K \in {"T", "A"} : AnyApplies(r, K) /\ ~ValuePremise(r, K)
+    \/ /\ c = "log2_detrended_by_covariate_rolling_median"
+       /\ NoErr(r) /\ ~MustRefuse(r)
+       /\ \E K \in {"T", "A"} : AnyApplies(r, K) /\ ~ValuePremise(r, K)
+    \/ c = "centred" /\ NoErr(r) /\ CentredUndecided(r.out)
 
 Holds(c, r) ==
     CASE c = "refuses_missing_or_duplicate" -> MustRefuse(r) => ~NoErr(r)
@@ -300,7 +311,7 @@ Holds(c, r) ==
       [] c = "log2_detrended_by_covariate_rolling_median" ->
             (NoErr(r) /\ ~MustRefuse(r)) =>
                 \A K \in {"T", "A"} : (AnyApplies(r, K) /\ ValuePremise(r, K)) => ClassConstantOK(r, K)
-      [] c = "centred" -> NoErr(r) => CentredOK(r.out, r.nauto)
+      [] c = "centred" -> (NoErr(r) /\ ~CentredUndecided(r.out)) => CentredOK(r.out, r.nauto)
       (* "carries a per-bin weight in [0.0001, 1]" *)
       [] c = "weight_in_range" -> NoErr(r) => \A j \in 1..Len(r.out) : WeightInRange(r.out[j])
       (* "that never decreases with bin size" (same class, same reference spread) *)
@@ -337,24 +348,51 @@ Drift(r) ==
                                   \/ r.out[j][8] # a[j][5] \/ r.out[j][9] # a[j][6]
 
 (* ---------------------------------------------------------------- known findings *)
-(* F1: do_fix relies on the sample tables being in genomic order (as tabio.read delivers them): center_by_window *)
-(*     re-sorts the corrected bins but not the matched reference rows, get_edge_bias takes table neighbours for  *)
-(*     genomic neighbours, and without antitargets nothing sorts the output.                                     *)
+(* F1 (fixed, /repo 9319317): do_fix relied on the sample tables being in genomic order (as tabio.read delivers   *)
+(*     them): center_by_window re-sorted the corrected bins but not the matched reference rows, get_edge_bias took  *)
+(*     table neighbours for genomic neighbours, and without antitargets nothing sorted the output.  The repaired    *)
+(*     load_adjust_coverages sorts a copy of the sample first -- which is what ALoad models.                        *)
 UnsortedSample(r) ==
     \/ ~SortedByKey(r.tgt) \/ ~SortedByKey(r.ant)
     \/ /\ r.var.kind = "perm"
        /\ \/ ~SortedByKey([k \in 1..Len(r.tgt) |-> r.tgt[r.var.tperm[k]]])
           \/ ~SortedByKey([k \in 1..Len(r.ant) |-> r.ant[r.var.aperm[k]]])
-(* F2: a class (on- or off-target) all of whose emitted bins are without coverage gets NaN weights               *)
-(*     (biweight_midvariance of nothing) *)
+(* F2 (fixed, /repo 13543f3): a class (on- or off-target) all of whose emitted bins are without coverage got NaN    *)
+(*     weights (biweight_midvariance of nothing); they now get the minimum weight.                                  *)
 ClassWithoutCoverage(r) ==
     /\ AErr(r) = ""
     /\ LET all == ABeforeCentre(r) IN
        \E cls \in {0, 1} :
           /\ \E i \in 1..Len(all) : all[i][6] = cls
           /\ \A i \in 1..Len(all) : all[i][6] = cls => LowCoverage(all[i][4], all[i][5])
-KnownTriggers == {"UnsortedSample", "ClassWithoutCoverage"}
+(* F3 (open): a bin without coverage keeps depth 0 and the placeholder log2 -20 whatever the depth scale, but such   *)
+(*     bins take part in the rolling-median trend of every corrected class (center_by_window does not drop them) and *)
+(*     in the centre of the off-target class (center_all(skip_low=False)).  Where such an estimate is attained at    *)
+(*     (or between) placeholder values -- a window whose median is a null bin, a chromosome median / median of        *)
+(*     medians that is one -- the corrected value / class offset of *covered* bins moves with the depth scale.        *)
+(*     The trigger says exactly that, on the inputs alone: some kept bin of a corrected class or of the off-target    *)
+(*     class has no coverage, AND the algorithm as modelled (AFix), run on the sample with every covered bin's log2   *)
+(*     moved by the scale's logarithm (r.var.k16 / 16, on the grid) and the placeholders left alone, gives some       *)
+(*     covered bin another value.  (With covariate ties the order, hence the A-layer, is not modelled: there the      *)
+(*     first conjunct alone.)                                                                                        *)
+NullBinEstimated(r) ==
+    \E K \in {"T", "A"} :
+        /\ K = "A" \/ AnyApplies(r, K)
+        /\ LET bins == ClassBins(r, K) IN \E i \in 1..Len(bins) : bins[i][1][5] = 1
+MoveCovered(t, d) == [i \in 1..Len(t) |-> IF t[i][5] = 1 THEN t[i] ELSE <<t[i][1], t[i][2], t[i][3], t[i][4] + d, t[i][5]>>]
+ModelDependsOnScale(r) ==
+    LET d == r.var.k16 * 64
+        a == AFix(r)
+        b == AFix([r EXCEPT !.tgt = Force(MoveCovered(r.tgt, d)), !.ant = Force(MoveCovered(r.ant, d))])
+    IN \E j \in 1..Len(a) : a[j][5] = 0 /\ a[j][4] # b[j][4]
+NullBinInEstimate(r) ==
+    /\ r.var.kind \in {"scale2k", "scalef"}
+    /\ AErr(r) = ""
+    /\ NullBinEstimated(r)
+    /\ ValuesModelled(r) => ModelDependsOnScale(r)
+KnownTriggers == {"UnsortedSample", "ClassWithoutCoverage", "NullBinInEstimate"}
 TriggerHolds(t, r) == CASE t = "UnsortedSample" -> UnsortedSample(r)
                         [] t = "ClassWithoutCoverage" -> ClassWithoutCoverage(r)
+                        [] t = "NullBinInEstimate" -> NullBinInEstimate(r)
                         [] OTHER -> FALSE
 =============================================================================
